@@ -921,7 +921,7 @@ def make_machine(world_cls, checks, cfg_strategy, rule_weights=None):
         def init(self, cfg):
             self.nr = len(cfg["market"]["runners"])
             self.nt = len(world.ladder_prices(cfg["market"]))
-            self.mids = [40 + 30 * i for i in range(self.nr)]
+            self.mids = [max(5, min(self.nt - 6, 40 + 30 * i)) for i in range(self.nr)]
             self.books = [([], []) for _ in range(self.nr)]
             self.ns = len(cfg["strategies"])
             self._do({"_": "init", "cfg": cfg})
@@ -1081,6 +1081,8 @@ def make_machine(world_cls, checks, cfg_strategy, rule_weights=None):
             else:
                 tick = max(0, self.mids[r] - 20)
                 size = round(lim * frac / max(0.01, self.w.prices[tick] - 1), 2)
+            if self.w.spec.get("ladder", {}).get("type") == "LINE_RANGE":
+                size = round(lim * frac, 2)  # a line bet is struck at evens: the liability is the stake on both sides
             size = max(0.01, size)
             self._do({"_": "req", "op": "place", "si": si, "r": r, "side": side, "type": "LIMIT", "tick": tick, "size": size,
                       "pers": "LAPSE", "trade": "new"})
